@@ -102,12 +102,22 @@ func JsonToSexp(json []byte, env *Zlisp) (Sexp, error) {
 }
 
 // sexp -> json
+// jsonDepth is the nesting of the value SexpToJson is working on.
+var jsonDepth int
+
 func SexpToJson(exp Sexp) string {
 	switch e := exp.(type) {
-	case *SexpHash:
-		return e.jsonHashHelper()
-	case *SexpArray:
-		return e.jsonArrayHelper()
+	case *SexpHash, *SexpArray:
+		// JSON has no way to write a value that contains itself
+		jsonDepth++
+		defer func() { jsonDepth-- }()
+		if jsonDepth > maxDataDepth {
+			panic(fmt.Errorf("json: data nested more than %d levels deep (self-referential?)", maxDataDepth))
+		}
+		if h, isHash := e.(*SexpHash); isHash {
+			return h.jsonHashHelper()
+		}
+		return e.(*SexpArray).jsonArrayHelper()
 	case *SexpSymbol:
 		return jsonQuote(e.name)
 	case *SexpStr:
